@@ -1,3 +1,4 @@
 pub use vvm as vm;
 pub mod util;
 pub mod paych;
+pub mod multisig;
